@@ -1,0 +1,29 @@
+//go:build verif
+
+package proxy
+
+import (
+	"net"
+
+	"go.minekube.com/gate/pkg/edition/java/netmc"
+	"go.minekube.com/gate/pkg/edition/java/proto/packet"
+)
+
+// VerifNewInitialLoginHandler returns the session handler that handshakeSessionHandler.handleLogin
+// installs for a login-intent connection (initialLoginSessionHandler over a fresh loginInboundConn),
+// wired to this proxy's registrar, config, event manager and authenticator. Verification hook for
+// C08: lets the harness deliver DECODED login packets (e.g. a login start carrying a
+// crypto.IdentifiedKey that no Mojang signature could be minted for) on a recording connection.
+// Export only, no logic.
+func VerifNewInitialLoginHandler(p *Proxy, conn netmc.MinecraftConn, virtualHost net.Addr) netmc.SessionHandler {
+	deps := &sessionHandlerDeps{
+		proxy:          p,
+		registrar:      p,
+		configProvider: p,
+		eventMgr:       p.event,
+		authenticator:  p.authenticator,
+		loginsQuota:    p.loginsQuota,
+	}
+	inbound := newInitialInbound(conn, virtualHost, packet.LoginHandshakeIntent)
+	return newInitialLoginSessionHandler(conn, newLoginInboundConn(inbound), deps)
+}
